@@ -11,16 +11,19 @@ PROOF_FILES = ["Properties/C02.v"]
 RULE = ("well-formed packets from logical records (adaptation_field_control 1/2/3; adaptation field length 0..183 with every "
         "subset of PCR/OPCR/splice/private-data/extension, random contents, 0xFF or arbitrary stuffing) serialised by the "
         "extracted Coq serialiser; on each: Payload (function and method), Header, PESHeader; SetPayload with lengths "
-        "0,1,cap-1,cap,cap+1,183,184,200 and random 0..200; SetAdaptationFieldControl 1..3; creation helpers over option "
-        "lists, flag grids and payload lengths 0..200.  Non-trivial = distinct request on a well-formed packet (for "
+        "0,1,cap-1,cap,cap+1,183,184,200 and random 0..200; SetAdaptationFieldControl for all 4 x 4 (control bits before, "
+        "requested value) pairs (00 before = a well-formed packet with the control bits cleared); Create(pid, options...) for "
+        "every subset of the six exported options, WithPES closures at every position relative to the flag options (several "
+        "WithPES per list, PTS up to 2^64-1), any Go int as pid; the named creation helpers over flag grids and payload "
+        "lengths 0..200.  Non-trivial = distinct request on a well-formed packet (for "
         "SetPayload: one that carries payload).  Malformed packets (length byte > 183, optional fields overflowing the "
         "field, reserved control 00) are fidelity cases")
 EXHAUSTIVE = False
 ASSUMPTIONS = ["a Packet is a [188]byte value; data slices have cap = len",
                "views vs copies (aliasing) are observed by goexec only: function Payload/Header return views, method Payload a copy",
                "the model follows /root/work/repo-fixed (F6, F7 repaired, C05 guards)"]
-PARTIAL = ("SetAdaptationFieldControl transitions other than 01->10, 01->11, 10->11 and 11->11, and Create with arbitrary option lists "
-           "(incl. WithPES) are tied by the correspondence only (fidelity cases)")
+PARTIAL = ("Create with option lists that contain a SetPayload closure (other than the CreatePacketWithPayload shape): only the header "
+           "is proved (C02_create_any_header), the body is tied by the correspondence only (fidelity cases)")
 
 FLAG_PCR, FLAG_OPCR, FLAG_SPLICE, FLAG_TPD, FLAG_EXT = 0x10, 0x08, 0x04, 0x02, 0x01
 
@@ -93,6 +96,33 @@ def serialise(ls):
     return out
 
 
+def afc_theorem(afc, v):
+    """the theorem of Properties/C02.v that determines SetAdaptationFieldControl(v) on a packet whose control bits are afc"""
+    if v < 2:
+        return "C02_set_afc_drops_field"
+    if afc in (0, 1):
+        return "C02_set_afc_creates_any" if afc == 0 else "C02_set_afc_creates"
+    if v == 2:
+        return "C02_set_afc2_keeps_field"
+    return "C02_set_afc3_on_af_only" if afc == 2 else "C02_set_afc3_noop"
+
+
+def opt_wire(o):
+    return str(o) if isinstance(o, int) else ("[ 6 %s ]" % hx(o[1]) if o[0] == 6 else "[ 7 %d ]" % o[1])
+
+
+def create_case(pid, opts):
+    """Create(pid, opts...): deciding when every option is one of the six exported flag options or a WithPES closure
+    (C02_create_flag_options / C02_create_with_pes give all 188 bytes, for any Go int pid); lists containing a
+    SetPayload closure are fidelity cases (only the header is proved for them: C02_create_any_header)"""
+    line = "pay.create %d [ %s ]" % (pid, " ".join(opt_wire(o) for o in opts))
+    if any(not isinstance(o, int) and o[0] == 6 for o in opts):
+        return Case(line, kind="fidelity-create-closure", decides=False, nontrivial=False, theorem="C02_create_any_header (header only)")
+    if any(not isinstance(o, int) for o in opts):
+        return Case(line, kind="create-pes", theorem="C02_create_with_pes")
+    return Case(line, kind="create-flags", theorem="C02_create_flag_options")
+
+
 def cap_of(l):
     if l["af"] is None: return 184
     if l["af"] == ("empty",): return 183
@@ -138,11 +168,14 @@ def gen(rng, tier):
                 if l["af"] is None and ln < 184:
                     kind += "-creates-af"
                 out.append(Case("pay.set %s %s" % (hx(p), hx(d)), kind=kind, theorem="C02_set_payload_ok" if ln > 0 else "C02_set_payload_empty"))
-        for v in (1, 2, 3):
+        for v in (0, 1, 2, 3):
             if rng.random() < 0.5 or thorough:
-                proved = (afc == 1 and v in (2, 3)) or (afc in (2, 3) and v == 3)
-                out.append(Case("pay.set_afc %s %d" % (hx(p), v), kind="set-afc" if proved else "fidelity-set-afc-other", decides=proved,
-                                nontrivial=proved, theorem="C02_set_afc_creates" if afc == 1 else (("C02_set_afc3_noop" if afc == 3 else "C02_set_afc3_on_af_only") if proved else "")))
+                out.append(Case("pay.set_afc %s %d" % (hx(p), v), kind="set-afc-%d%d" % (afc, v), theorem=afc_theorem(afc, v)))
+        # the same packet with the control bits cleared to the reserved value 00 (from 00 the call behaves as from 01)
+        if rng.random() < 0.15 or thorough:
+            q = bytearray(p); q[3] &= 0xCF
+            for v in (0, 1, 2, 3):
+                out.append(Case("pay.set_afc %s %d" % (hx(bytes(q)), v), kind="set-afc-0%d" % v, theorem=afc_theorem(0, v)))
         if rng.random() < 0.3:
             out.append(Case("pay.set_fn %s %s" % (hx(p), hx(rb(rng, rng.randrange(201)))), kind="set-fn", theorem="C02_set_payload_fn"))
     # ---- malformed packets: fidelity only
@@ -174,15 +207,29 @@ def gen(rng, tier):
     for ln in list(range(0, 201, 1 if thorough else 7)) + [183, 184, 185]:
         out.append(Case("pay.create_pwp %d %d %s" % (rng.randrange(8192), rng.randrange(16), hx(rb(rng, ln))),
                         kind="create-with-payload", theorem="C02_create_packet_with_payload"))
-    for _ in range(150 if not thorough else 5000):
+    pids = lambda: rng.choice([0, 1, 0x100, 8191, rng.randrange(8192), rng.randrange(8192), 8192, 65535, -1, -8192, (1 << 40) + 7])
+    ptss = lambda: rng.choice([0, 1, 2 ** 33 - 1, 2 ** 32, 900000, rng.randrange(2 ** 33), rng.randrange(2 ** 33), 2 ** 33, 2 ** 64 - 1])
+    # every subset of the six exported options once (in random order, some repeated)
+    for mask in range(64):
+        opts = [k for k in range(6) if mask >> k & 1]
+        rng.shuffle(opts)
+        if opts and rng.random() < 0.3:
+            opts.append(rng.choice(opts))
+        out.append(create_case(pids(), opts))
+    # WithPES at every position relative to the adaptation-field flag and the byte-5 options
+    for _ in range(200 if not thorough else 6000):
+        opts = [rng.randrange(6) for _ in range(rng.randrange(0, 5))]
+        for _ in range(rng.choice([1, 1, 1, 2, 3])):
+            opts.insert(rng.randrange(len(opts) + 1), (7, ptss()))
+        out.append(create_case(pids(), opts))
+    for _ in range(100 if not thorough else 3000):
         opts = []
-        for _ in range(rng.randrange(0, 6)):
+        for _ in range(rng.randrange(0, 7)):
             k = rng.randrange(8)
-            if k < 6: opts.append(str(k))
-            elif k == 6: opts.append("[ 6 %s ]" % hx(rb(rng, rng.choice([0, 1, 10, 184, 200]))))
-            else: opts.append("[ 7 %d ]" % rng.randrange(2 ** 33))
-        out.append(Case("pay.create %d [ %s ]" % (rng.choice([0, 8191, rng.randrange(8192)]), " ".join(opts)), kind="create",
-                        decides=False, theorem="(no theorem: correspondence only)"))
+            if k < 6: opts.append(k)
+            elif k == 6: opts.append((6, rb(rng, rng.choice([0, 1, 10, 184, 200]))))
+            else: opts.append((7, ptss()))
+        out.append(create_case(pids(), opts))
     # out-of-range pid / cc for the helpers: fidelity
     for _ in range(40):
         out.append(Case("pay.create_test %d %d 1 1" % (rng.choice([8192, 65535, -1, 1 << 20]), rng.randrange(16, 256)),
@@ -210,7 +257,24 @@ def shrink(c):
             yield Case("pay.set %s %s" % (hx(bytes(q)), f[2]), kind=c.kind, decides=c.decides, theorem=c.theorem)
 
 
+    if f[0] == "pay.create":
+        v = vlib.parse_val("[ " + c.line[len("pay.create "):] + " ]")
+        pid, raw = v[0], v[1]
+        opts = [o if isinstance(o, int) else (o[0], o[1]) for o in raw]
+        for i in range(len(opts)):
+            yield create_case(pid, opts[:i] + opts[i + 1:])
+        if not 0 <= pid < 8192:
+            yield create_case(pid % 8192, opts)
+        for i, o in enumerate(opts):
+            if not isinstance(o, int) and o[0] == 7 and o[1] != 0:
+                yield create_case(pid, opts[:i] + [(7, 0)] + opts[i + 1:])
+
+
 def case_of_line(line, kind):
+    f = line.split()
+    if f and f[0] == "pay.create":
+        v = vlib.parse_val("[ " + line[len("pay.create "):] + " ]")
+        return create_case(v[0], [o if isinstance(o, int) else (o[0], o[1]) for o in v[1]])
     return Case(line, kind=kind or "replay", decides=not (kind or "").startswith("fidelity"))
 
 
